@@ -45,6 +45,7 @@ def main():
         CTX.tq = 0.0
         counts = {}
         fails = []
+        nsig = {}
         samples = []
         keys = set()
         trivial = 0
@@ -85,12 +86,20 @@ def main():
                     if len(samples) < 2:
                         samples.append({"key": str(k)[:300], "info": _short(x.get("info")), "depth": x.get("depth")})
                 elif st != "abort":
-                    if len(fails) < 40:
-                        fails.append({k: x.get(k) for k in ("status", "key", "info", "model", "why", "exc", "sig", "notes")})
+                    rec = {k: x.get(k) for k in ("status", "key", "info", "model", "why", "exc", "notes")}
+                    try:
+                        sg = mod.signature(req["harness"], req["params"], rec)
+                    except Exception as e:
+                        sg = {"sigerror": repr(e)}
+                    rec["sig"] = sg
+                    sk = json.dumps(sg, sort_keys=True, default=str)
+                    nsig[sk] = nsig.get(sk, 0) + 1
+                    if nsig[sk] <= 2 and len(fails) < 400:
+                        fails.append(rec)
         finally:
             sys.setprofile(None)
         resp = {"counts": counts, "fails": fails, "samples": samples, "keys": sorted(keys), "rest": rest,
-                "nq": CTX.nq, "tq": CTX.tq, "paths": paths, "claims": claims, "trivial": trivial,
+                "nq": CTX.nq, "tq": CTX.tq, "paths": paths, "claims": claims, "trivial": trivial, "nsig": nsig,
                 "wall": time.time() - t0}
         if req.get("profile"):
             resp["funcs"] = sorted(prof_funcs)
